@@ -270,13 +270,27 @@ def main():
         with ProcessPoolExecutor(max_workers=12) as ex:
             outcomes = list(ex.map(run_tests, jobs))
         survivors = [(rel, desc) for (rel, desc, ok) in outcomes if ok]
+    ae_survivors = []
+    if '--tests-ae' in sys.argv and by[2]:
+        # analysis-error (exit 2) mutants that the repository's tests also accept: candidates where the check
+        # should have recognised the difference (exit 1) instead of merely refusing to decide
+        src_of = {(rel, desc): new_src for (_, rel, desc, new_src) in tasks}
+        rule_of = {(rel, desc): rule for rel, desc, rule in by[2]}
+        jobs = [(rel, desc, src_of[(rel, desc)]) for rel, desc, _ in by[2]]
+        with ProcessPoolExecutor(max_workers=12) as ex:
+            outcomes = list(ex.map(run_tests, jobs))
+        ae_survivors = [(rel, desc, rule_of[(rel, desc)]) for (rel, desc, ok) in outcomes if ok]
     print('%s: %d mutants in %d functions: reported %d, analysis-error %d, silent %d, crashed %d' % (
         prop, len(results), sum(len(q) for q in anchors.values()), len(by[1]), len(by[2]), len(by[0]), len(by[3])))
     if '--tests' in sys.argv:
         print('   of the %d silent mutants, %d also pass the repository test suite:' % (len(by[0]), len(survivors)))
         for rel, desc in sorted(survivors):
             print('  SILENT+TESTS-PASS %s %s' % (rel.split('/')[-1], desc))
-    elif '--list' in sys.argv:
+    if '--tests-ae' in sys.argv:
+        print('   of the %d analysis-error mutants, %d also pass the repository test suite:' % (len(by[2]), len(ae_survivors)))
+        for rel, desc, rule in sorted(ae_survivors):
+            print('  UNDECIDED+TESTS-PASS %s %s [%s]' % (rel.split('/')[-1], desc, rule))
+    if '--list' in sys.argv:
         for rel, desc, rule in sorted(by[0]):
             print('  SILENT %s %s' % (rel.split('/')[-1], desc))
         for rel, desc, rule in sorted(by[3]):
@@ -286,6 +300,9 @@ def main():
     with open(os.path.join(out, '%s.json' % prop), 'w') as f:
         json.dump({'property': prop, 'mutants': len(results), 'reported': len(by[1]), 'analysis_error': len(by[2]),
                    'silent': len(by[0]), 'crashed': len(by[3]),
+                   'silent_tests_pass': ['%s %s' % (r, d) for r, d in sorted(survivors)],
+                   'undecided_list': ['%s %s [%s]' % (r, d, x) for r, d, x in sorted(by[2])],
+                   'undecided_tests_pass': ['%s %s [%s]' % (r, d, x) for r, d, x in sorted(ae_survivors)],
                    'silent_list': ['%s %s' % (r, d) for r, d, _ in sorted(by[0])],
                    'crash_list': ['%s %s %s' % (r, d, x) for r, d, x in sorted(by[3])]}, f, indent=1)
         f.write('\n')
